@@ -1,7 +1,7 @@
 #!/venv/bin/python
 """Kill matrix: applies every seeded change (seeded/<name>/patch.diff) to a scratch worktree of /repo and runs the quick
 check of the property it was written against; each must exit 1 with a VIOLATION line.
-usage: tools/seeded_regress.py [name ...]      (scratch worktrees under /var/tmp, removed afterwards)"""
+usage: [KM_OUT=file] tools/seeded_regress.py [name ...]      (scratch worktrees under /var/tmp, removed afterwards)"""
 import glob
 import json
 import os
@@ -38,7 +38,7 @@ def main():
         sh("git -C /repo worktree remove --force %s" % wt)
     sh("git -C /repo worktree prune")
     sh("git checkout -- evidence", cwd=ROOT)      # the runs above rewrote evidence files against changed trees
-    json.dump(out, open(os.path.join(ROOT, "seeded", "kill-matrix.json"), "w"), indent=1)
+    json.dump(out, open(os.environ.get("KM_OUT") or os.path.join(ROOT, "seeded", "kill-matrix.json"), "w"), indent=1)
     missed = [n for n, v in out.items() if not (isinstance(v, dict) and v["caught"])]
     print("caught %d of %d; missed: %s" % (len(out) - len(missed), len(out), missed))
     sys.exit(1 if missed else 0)
